@@ -54,7 +54,21 @@ def D_spec(d, pre, be, preT, beT, strain=None, sitedip=None, jumpdip=None):
             W[i, j] += np.sqrt(rho[i] / rho[j]) * r; W[i, i] -= r
             b[i] += np.sqrt(rho[i]) * r * dx
             D0 += 0.5 * np.outer(dx, dx) * rho[i] * r
-    return D0 + b.T @ np.linalg.pinv(W, hermitian=True) @ b
+    # pseudo-inverse with the analytically known null space (one zero mode sqrt(rho) per connected network):
+    # W^+ = (W - P)^-1 + P.  A numerical pinv cuts singular values relative to the largest one and can invert roundoff
+    # when fast same-site jumps cancel out of W (seen at 1e-6 relative on a two-site cell without symmetry).
+    lab = list(range(N))
+    def find(a):
+        while lab[a] != a: a = lab[a]
+        return a
+    for jl in d.jumpnetwork:
+        for (i, j), dx in jl: lab[find(i)] = find(j)
+    P = np.zeros((N, N))
+    for root in {find(i) for i in range(N)}:
+        v = np.array([np.sqrt(rho[i]) if find(i) == root else 0. for i in range(N)]); v /= np.linalg.norm(v)
+        P += np.outer(v, v)
+    Ws = 0.5 * (W + W.T)
+    return D0 + b.T @ (np.linalg.solve(Ws - P, b) + P @ b)
 
 
 def project_invariant(T, H):
@@ -77,9 +91,15 @@ def w_interstitial(arg):
         try: gf = GFcalc.GFCrystalcalc(c, d.chem, d.sitelist, d.jumpnetwork, 2)
         except Exception as ex: acc.check(False, 'GF-calculator-constructs', '%s: %s' % (type(ex).__name__, ex))
     G = list(c.G)
-    for t in range(nsets):
+    samesite = [k for k, jl in enumerate(d.jumpnetwork) if jl[0][0][0] == jl[0][0][1]]
+    for t in range(nsets + (1 if samesite and len(samesite) < len(d.jumpnetwork) else 0)):
         pre, be, preT, beT = thermo(d, rng, spread=1.0 if t % 3 else 4.0)
         tag = 'dataset %d' % t
+        if t == nsets:
+            # jumps between translation images of one site 1e6 times faster than every jump between different sites
+            # (they do not enter the q=0 rate matrix; the result must not depend on how they cancel there)
+            beT = np.array([be.max() + (0.3 if k in samesite else 14.) + 0.1 * rng.uniform() for k in range(len(d.jumpnetwork))])
+            tag = 'dataset %d (fast same-site jumps)' % t
         D = d.diffusivity(pre, be, preT, beT)
         sc = np.abs(D).max()
         if which == 'C02':
